@@ -42,10 +42,39 @@ AXIOM_ALLOW = {
 }
 
 
+def alt_repo():
+    """VERIF_REPO=<dir> runs the checks against another checkout of the repository (used to try seeded breakages
+    in a scratch worktree without touching /repo): the harness workspace is mirrored with its path dependencies
+    rewritten and built into a separate target directory."""
+    return REPO != "/repo"
+
+
+def target_dir():
+    if alt_repo():
+        return os.path.join(CACHE, "target-alt-" + hashlib.sha1(REPO.encode()).hexdigest()[:8])
+    return os.path.join(CACHE, "target")
+
+
+def harness_dir():
+    if not alt_repo():
+        return HARNESS
+    dst = os.path.join(CACHE, "harness-alt-" + hashlib.sha1(REPO.encode()).hexdigest()[:8])
+    shutil.rmtree(dst, ignore_errors=True)
+    shutil.copytree(HARNESS, dst, ignore=shutil.ignore_patterns("target", "Cargo.lock"))
+    for root, _, names in os.walk(dst):
+        for n in names:
+            if n == "Cargo.toml":
+                fp = os.path.join(root, n)
+                txt = open(fp).read().replace('"/repo/', '"%s/' % REPO.rstrip("/"))
+                open(fp, "w").write(txt)
+    shutil.copy(os.path.join(REPO, "Cargo.lock"), os.path.join(dst, "Cargo.lock"))
+    return dst
+
+
 def env_base():
     e = dict(os.environ)
     e["CARGO_NET_OFFLINE"] = "true"
-    e["CARGO_TARGET_DIR"] = os.path.join(CACHE, "target")
+    e["CARGO_TARGET_DIR"] = target_dir()
     e["RUSTFLAGS"] = RUSTFLAGS
     e.setdefault("RUST_BACKTRACE", "0")
     return e
@@ -183,20 +212,21 @@ class Check:
         """cargo build --release of harness bins; returns dict bin->path or None (tie broken)"""
         if isinstance(bins, str):
             bins = [bins]
+        hdir = harness_dir()
         lock_src = os.path.join(REPO, "Cargo.lock")
-        lock_dst = os.path.join(HARNESS, "Cargo.lock")
+        lock_dst = os.path.join(hdir, "Cargo.lock")
         if not os.path.exists(lock_dst) and os.path.exists(lock_src):
             shutil.copy(lock_src, lock_dst)
         cmd = ["cargo", "build", "--release", "--offline", "-p", crate]
         for b in bins:
             cmd += ["--bin", b]
         self.log("cargo build", crate, bins)
-        rc, out, err = sh(cmd, cwd=HARNESS, env=env_base(), timeout=3600)
+        rc, out, err = sh(cmd, cwd=hdir, env=env_base(), timeout=3600)
         if rc != 0:
             self.broken.append({"kind": "tie", "what": "harness %s/%s no longer builds against /repo" % (crate, ",".join(bins)),
                                 "detail": err[-6000:]})
             return None
-        return {b: os.path.join(CACHE, "target", "release", b) for b in bins}
+        return {b: os.path.join(target_dir(), "release", b) for b in bins}
 
     def build_repo_bin(self, package, bin_name, features=None):
         """build one of /repo's own binaries (emmylua_check, emmylua_doc_cli, luafmt, emmylua_ls, schema_to_emmylua)
@@ -210,7 +240,7 @@ class Check:
         if rc != 0:
             self.broken.append({"kind": "tie", "what": "/repo binary %s no longer builds" % bin_name, "detail": err[-6000:]})
             return None
-        return os.path.join(CACHE, "target", "release", bin_name)
+        return os.path.join(target_dir(), "release", bin_name)
 
     def run_bin(self, path, args, input=None, timeout=1800, env_extra=None):
         e = env_base()
